@@ -26,7 +26,7 @@ theorem leaveStruct_inv {orph : List Nat} {h : Hub} (hi : InvX orph h) {s : Nat}
     obtain ⟨rm', h1, h2⟩ := hi.room_mem' s x r hx hr
     rw [hrm] at h1; cases h1; exact h2
   unfold leaveStruct
-  obtain ⟨f1, f2, f3, f4, f5, f6, f7, f8, f9, f10, f11, f12, f13, f14, f15, f16, f17, f18, f19, f20, f21, f22, f23, f24⟩ := hi
+  obtain ⟨f1, f2, f3, f4, f5, f6, f7, f8, f9, f10, f11, f12, f13, f14, f15, f16, f17, f18, f19, f20, f21, f22, f23, f24, f25⟩ := hi
   have hall : removeL rm.members s = [] → ∀ t, t ∈ rm.members → t = s := by
     intro he t ht
     apply Decidable.byContradiction
@@ -35,7 +35,7 @@ theorem leaveStruct_inv {orph : List Nat} {h : Hub} (hi : InvX orph h) {s : Nat}
     rw [he] at this; cases this
   by_cases hk : x.kind = .virtual <;> by_cases he : removeL rm.members s = [] <;>
     simp only [hk, he, if_true, if_false] <;> constructor
-  all_goals (intros; simp only [hubf] at *; grind [mem_removeL, nodup_removeL])
+  all_goals (intros; simp only [hubf] at *; grind [mem_removeL, nodup_removeL, length_removeL_le])
 
 
 theorem leaveRoom_core (a : Acc) (s : Nat) {x : Sess} {r : String} {rm : Room}
